@@ -191,6 +191,6 @@ def pprog(prog, full=False):
     for g in prog.get('globals', ()):
         out.append(pstmt(g, 0, full))
     for ret, name, params, body in prog['funcs']:
-        ps = ', '.join(f'{ptype(t)} {n}' for t, n in params)
+        ps = ', '.join(('const ' if len(p) > 2 and p[2] else '') + f'{ptype(p[0])} {p[1]}' for p in params)
         out.append(f'{ret} {name}({ps}) ' + pblock(body, 0, full))
     return ''.join(out)
